@@ -49,19 +49,19 @@ var specFfi = map[string]string{
 
 // specBuiltin: imports modelled by the prelude, never required (specification table).
 var specBuiltin = map[string]bool{
-	"fmt":  true,
-	"log":  true,
-	"sync": true,
-	"github.com/goose-lang/goose/machine":         true,
-	pMD:                                           true,
-	pMAD:                                          true,
+	"fmt":                                 true,
+	"log":                                 true,
+	"sync":                                true,
+	"github.com/goose-lang/goose/machine": true,
+	pMD:                                   true,
+	pMAD:                                  true,
 	"github.com/goose-lang/goose/machine/filesys": true,
 	"github.com/goose-lang/primitive":             true,
 	pPD:                                           true,
 	pPAD:                                          true,
 	pGROVE:                                        true,
-	pGOKVTIME: true,
-	pCFMUTEX:  true,
+	pGOKVTIME:                                     true,
+	pCFMUTEX:                                      true,
 }
 
 var c08FfiShort = map[string]string{"md": pMD, "mad": pMAD, "pd": pPD, "pad": pPAD, "grove": pGROVE}
@@ -455,7 +455,7 @@ func c08MainModule() *c08Module {
 	odd := []string{m.local("odd/my-pkg"), m.local("odd/v2.1"), m.local("in-ner/a.b-c"), m.local("odd/trusted_d-x")}
 	for i, o := range odd {
 		m.add(fmt.Sprintf("t/n%02d", i), "odd-base-name direct", []string{o})
-		m.add(fmt.Sprintf("t/n%02d", i+4), "odd-base-name + ffi + decor", append([]string{o, c08FfiShort[c08FfiKeys[1+i]]}, m.decor(i + 1)...))
+		m.add(fmt.Sprintf("t/n%02d", i+4), "odd-base-name + ffi + decor", append([]string{o, c08FfiShort[c08FfiKeys[1+i]]}, m.decor(i+1)...))
 	}
 	m.add("t/n08", "odd-base-name all, repeated", odd, []string{odd[1], odd[0]})
 	// odd INNER component only (must work): x.y is a directory, "in" the base
